@@ -12,6 +12,11 @@ LEVY = ["none", "space-time", "davie", "foster"]
 GRIDS = [16, 64, 100, 1000, 1 << 12, 1 << 20, 10 ** 6]
 
 
+def _one_in(n):
+    """True with probability ~1/n (sampled_from has no boundary bias, unlike integers())."""
+    return st.sampled_from([False] * (n - 1) + [True])
+
+
 def ndigits_of(tol):
     return -int(math.log10(tol))
 
@@ -53,13 +58,13 @@ def configs(draw, wrappers=("interval",), allow_cache0=True, allow_dt=True, allo
     if wrapper in ("interval", "reverse"):
         sizes = [0, 1, 2, 5, 45, None] if allow_cache0 else [1, 2, 5, 45, None]
         cfg["cache_size"] = draw(st.sampled_from(sizes))
-        if allow_halfway and allow_tol and draw(st.integers(0, 3)) == 0:
+        if allow_halfway and allow_tol and draw(_one_in(4)):
             cfg["halfway"] = True
             cfg["tol"] = draw(st.sampled_from([1e-2, 1e-3, 1e-6]))
         else:
-            if allow_tol and draw(st.integers(0, 3)) == 0:
+            if allow_tol and draw(_one_in(4)):
                 cfg["tol"] = draw(st.sampled_from([1e-2, 1e-3, 1e-6]))
-            if allow_dt and draw(st.integers(0, 2)) == 0:
+            if allow_dt and draw(_one_in(3)):
                 cs = cfg["cache_size"]
                 eff = 100 if cs is None else min(cs, 100)
                 cands = [span / k for k in (4, 16, 100, 1000, 10000)
@@ -67,14 +72,14 @@ def configs(draw, wrappers=("interval",), allow_cache0=True, allow_dt=True, allo
                 if cands:
                     cfg["dt"] = draw(st.sampled_from(cands))
         if allow_user:
-            cfg["user_W"] = draw(st.integers(0, 4)) == 0
-            cfg["user_H"] = draw(st.integers(0, 4)) == 0 and lv != "none"
+            cfg["user_W"] = draw(_one_in(5))
+            cfg["user_H"] = draw(_one_in(5)) and lv != "none"
     elif wrapper == "tree":
         cfg["halfway"] = True
         cfg["tol"] = draw(st.sampled_from([1e-2, 1e-3, 1e-6]))
         cfg["cache_size"] = 45
         if allow_user:
-            cfg["user_W"] = draw(st.integers(0, 3)) == 0      # w1 supplied
+            cfg["user_W"] = draw(_one_in(4))      # w1 supplied
         cfg["levy"] = "none"
     elif wrapper == "path":
         cfg["cache_size"] = None
@@ -90,7 +95,7 @@ def op_lists(draw, cfg, min_ops=1, max_ops=12, max_sweep=40, allow_zero=True):
     n = cfg["grid"]
     ops = []
     k = draw(st.integers(min_ops, max_ops))
-    kinds = ["q", "q", "q", "sweep", "sweepback", "zoom", "req", "trial"]
+    kinds = ["q", "q", "q", "sweep", "sweepback", "zoom", "req", "trial", "pad100"]
     if allow_zero:
         kinds.append("zero")
     for _ in range(k):
@@ -104,6 +109,12 @@ def op_lists(draw, cfg, min_ops=1, max_ops=12, max_sweep=40, allow_zero=True):
             w = draw(st.integers(1, max(1, n // cnt)))
             i0 = draw(st.integers(0, max(0, n - cnt * w)))
             ops.append([kind, i0, w, cnt])
+        elif kind == "pad100":
+            # push the history past the 100-query warm-up after which an inferred-dt object rebuilds its tree
+            cnt = draw(st.integers(99, 130)) if max_sweep >= 30 else max_sweep
+            w = draw(st.integers(1, max(1, n // cnt)))
+            i0 = draw(st.integers(0, max(0, n - cnt * w)))
+            ops.append(["sweep", i0, w, cnt])
         elif kind == "zoom":
             i = draw(st.integers(0, n - 1))
             j = draw(st.integers(i + 1, n))
@@ -204,6 +215,8 @@ def build(cfg, torchsde, torch):
     elif wrapper == "tree":
         w0 = torch.randn(shape, dtype=dtype, generator=g)
         w1 = (w0 + W) if W is not None else None
+        if W is not None:
+            W = w1 - w0          # the increment the caller actually supplied (w1 - w0 in floating point)
         obj = torchsde.BrownianTree(t0=cfg["t0"], w0=w0, t1=cfg["t1"], w1=w1, entropy=cfg["entropy"], tol=cfg["tol"])
         interval = obj._interval
         base = obj
